@@ -192,7 +192,7 @@ theorem trusted9 : Trusted m9.1 c8 m9.2 := by
     have : m9.1.dec.block "\x00garbage" = none := by decide
     rw [this] at hb; cases hb
   · intro s1 hs1 h hh
-    simp [insertedHeaders] at hh
+    simp [insertedHeaders, insertedHeadersAll] at hh
 
 /-- **the schedule satisfies the environment assumption** -/
 theorem trusted : TrustedRun c0 msgs := by
